@@ -281,12 +281,12 @@ theorem textView_indexedBody {L : Type} (text : L → Str) (x : IntLit × IR L) 
     simp only [indexedBody, irText]
     split
     · next h => rw [h]; rfl
-    · rfl
+    · simp [textView, concatText]
   | ref n =>
     simp only [indexedBody, irText]
     split
     · next h => rw [h]; rfl
-    · rfl
+    · simp [textView, concatText]
 
 theorem index_indexedBody {L : Type} (text : L → Str) (x : IntLit × IR L) :
     attrOf (indexedBody text x).2.1 cs!"Index" = some x.1.text := by
@@ -313,8 +313,7 @@ theorem textView_irBody {L : Type} (text : L → Str) (x : IR L) :
 
 /-- `ValueKind<IntegerId>`: `Value` | `pValueCopy* pValue pValueCopy*` | `pIndex …` -/
 theorem pValueKind_int (v : ValueM IntLit) (segs : List Seg) (st : St F)
-    (h1 : canStart cs!"pValueCopy" segs = false) (h2 : canStart cs!"ValueIndexed" segs = false)
-    (h3 : canStart cs!"pValueIndexed" segs = false) :
+    (h1 : canStart cs!"pValueCopy" segs = false) :
     pValueKind pIntegerId pImmOrPIntegerId (flat (v.segs IntLit.text ++ segs)) st =
       .ok ((valueS (fun l => .int l.val) irIntIdS v st).1, flat segs,
         (valueS (fun l => .int l.val) irIntIdS v st).2) := by
@@ -333,7 +332,7 @@ theorem pValueKind_int (v : ValueM IntLit) (segs : List Seg) (st : St F)
         listS]
       rfl
     | cons b bs =>
-      simp only [List.map_cons] at e1
+      simp only [List.map_cons, flat_many_cons] at e1
       simp [pValueKind, ValueM.segs, P.bind_def, peekElem_node, pPValue, e1, pNodeId_node, e2, valueS]
       rfl
   | pIndex p indexed dflt =>
@@ -346,5 +345,365 @@ theorem pValueKind_int (v : ValueM IntLit) (segs : List Seg) (st : St F)
     rw [e1 _ _ (by simp)]
     simp [pImmOrPIntegerId_body _ _ dflt (textView_irBody IntLit.text dflt)]
     rfl
+
+
+/-- no tag other than the four value-kind head tags can start a rendered value kind -/
+theorem canStart_valueSegs {L : Type} (text : L → Str) (v : ValueM L) (rest : List Seg) (t : Str)
+    (h1 : cs!"Value" ≠ t) (h2 : cs!"pValueCopy" ≠ t) (h3 : cs!"pValue" ≠ t) (h4 : cs!"pIndex" ≠ t) :
+    canStart t (v.segs text ++ rest) = false := by
+  cases v <;> simp [ValueM.segs, canStart, h1, h2, h3, h4]
+
+set_option maxRecDepth 4000 in
+theorem pInteger_render (m : IntegerM) (st : St F) :
+    pInteger m.attr.render m.children st =
+      .ok ((specInteger m st).1, [], (specInteger m st).2) := by
+  let tail : List Seg :=
+    [ .opt2 cs!"Min" cs!"pMin" (m.min.map (irBody IntLit.text)),
+      .opt2 cs!"Max" cs!"pMax" (m.max.map (irBody IntLit.text)),
+      .opt2 cs!"Inc" cs!"pInc" (m.inc.map (irBody IntLit.text)),
+      .opt cs!"Unit" (m.unit.map tb),
+      .opt cs!"Representation" (m.representation.map fun r => tb r.text),
+      .many cs!"pSelected" (m.pSelected.map tb) ]
+  have hch : m.children = flat (m.elem.segs [] ++
+      (.opt cs!"Streamable" (m.streamable.map fun b => tb b.text) ::
+        (m.value.segs IntLit.text ++ tail))) := by
+    simp [IntegerM.children, tail, List.append_assoc]
+  have h := pElemBase_segs m.elem []
+    (.opt cs!"Streamable" (m.streamable.map fun b => tb b.text) ::
+        (m.value.segs IntLit.text ++ tail))
+    (specAttr m.attr st).2 (by
+      simp [noneStart, elemTags, canStart, canStart_valueSegs])
+  have e1 := fun st => parseIf_optBool (F := F) cs!"Streamable" m.streamable
+    (m.value.segs IntLit.text ++ tail) st (by simp [canStart_valueSegs])
+  have e2 := fun st => pValueKind_int (F := F) m.value tail st (by rfl)
+  rw [hch]
+  simp [pInteger, P.bind_def, pAttrBase_render, h, e1, parseIfD_def, e2, tail]
+  simp (config := { maxDischargeDepth := 3 }) [orElse_opt2_intId, orElse_opt2_int, canStart,
+    parseIf_optString, parseIf_optTable _ _ lookup_intRepr, parseWhile_manyNodeId_last]
+  cases hmin : m.min <;> cases hmax : m.max <;>
+    simp [specInteger, optS, hmin, hmax, storeValue, storeS, P.bind_def, pure_apply]
+
+
+/-! ### named values, IntSwissKnife -/
+
+theorem listS_pure {α β : Type} (g : α → β) (vs : List α) (st : St F) :
+    listS (fun a st => (g a, st)) vs st = (vs.map g, st) := by
+  induction vs with
+  | nil => rfl
+  | cons a as ih => simp [listS, ih]
+
+theorem name_ntb (n s : Str) : attrOf (ntb n s).1 cs!"Name" = some n := by simp [ntb, attrOf]
+
+theorem pNamedValue_nodeId (tag : Str) (x : Str × Str) (rest : Cur) (st : St F) :
+    pNamedValue pNodeId (mkNode tag (ntb x.1 x.2) :: rest) st =
+      .ok ((pVarS x st).1, rest, (pVarS x st).2) := by
+  simp [pNamedValue, P.bind_def, P.bind_def', peekElem_node, name_ntb, ofOpt, P.ofR,
+    pNodeId_body _ _ _ (textView_ntb x.1 x.2), pVarS, pure_apply]
+
+theorem pNamedValue_i64 (tag : Str) (x : Str × IntLit) (rest : Cur) (st : St F) :
+    pNamedValue pI64 (mkNode tag (ntb x.1 x.2.text) :: rest) st =
+      .ok (⟨x.1, x.2.val⟩, rest, st) := by
+  simp [pNamedValue, P.bind_def, P.bind_def', peekElem_node, name_ntb, ofOpt, P.ofR,
+    pI64_body _ _ x.2 (textView_ntb x.1 x.2.text), pure_apply]
+
+theorem pFormula_body [FloatLit F] (tag : Str) (b : Body) (x : FormulaText F)
+    (hb : textView b.2 = .ok x.text) (rest : Cur) (st : St F) :
+    pFormula (mkNode tag b :: rest) st = .ok (x.text, rest, st) := by
+  simp [pFormula, P.bind_def, nextText_body _ _ _ hb, x.ok, pure_apply]
+
+theorem pNamedValue_formula [FloatLit F] (tag : Str) (x : Str × FormulaText F) (rest : Cur)
+    (st : St F) :
+    pNamedValue pFormula (mkNode tag (ntb x.1 x.2.text) :: rest) st =
+      .ok (⟨x.1, x.2.text⟩, rest, st) := by
+  simp [pNamedValue, P.bind_def, P.bind_def', peekElem_node, name_ntb, ofOpt, P.ofR,
+    pFormula_body _ _ x.2 (textView_ntb x.1 x.2.text), pure_apply]
+
+theorem parseWhile_pVariables (vs : List (Str × Str)) (segs : List Seg) (st : St F)
+    (h : canStart cs!"pVariable" segs = false) :
+    pVariables (flat (.many cs!"pVariable" (vs.map fun x => ntb x.1 x.2) :: segs)) st =
+      .ok ((listS pVarS vs st).1, flat segs, (listS pVarS vs st).2) := by
+  unfold pVariables
+  exact parseWhile_many cs!"pVariable" (pNamedValue pNodeId) (fun x : Str × Str => ntb x.1 x.2) pVarS
+    (fun a rest st => pNamedValue_nodeId _ a rest st) vs segs st h
+
+theorem parseWhile_constantsInt (vs : List (Str × IntLit)) (segs : List Seg) (st : St F)
+    (h : canStart cs!"Constant" segs = false) :
+    parseWhile cs!"Constant" (pNamedValue pI64)
+        (flat (.many cs!"Constant" (vs.map fun x => ntb x.1 x.2.text) :: segs)) st =
+      .ok (vs.map fun x => ⟨x.1, x.2.val⟩, flat segs, st) := by
+  have := parseWhile_many cs!"Constant" (pNamedValue pI64) (fun x : Str × IntLit => ntb x.1 x.2.text)
+    (fun x st => ((⟨x.1, x.2.val⟩ : NamedValue Int), st))
+    (fun a rest st => pNamedValue_i64 _ a rest st) vs segs st h
+  simpa [listS_pure] using this
+
+theorem parseWhile_expressions [FloatLit F] (vs : List (Str × FormulaText F)) (segs : List Seg)
+    (st : St F) (h : canStart cs!"Expression" segs = false) :
+    pExpressions (flat (.many cs!"Expression" (vs.map fun x => ntb x.1 x.2.text) :: segs)) st =
+      .ok (vs.map fun x => ⟨x.1, x.2.text⟩, flat segs, st) := by
+  have := parseWhile_many cs!"Expression" (pNamedValue pFormula)
+    (fun x : Str × FormulaText F => ntb x.1 x.2.text)
+    (fun x st => ((⟨x.1, x.2.text⟩ : NamedValue Str), st))
+    (fun a rest st => pNamedValue_formula _ a rest st) vs segs st h
+  simpa [listS_pure, pExpressions] using this
+
+theorem pIntSwissKnife_render [FloatLit F] (m : IntSwissKnifeM F) (st : St F) :
+    pIntSwissKnife m.attr.render m.children st =
+      .ok ((specIntSwissKnife m st).1, [], (specIntSwissKnife m st).2) := by
+  have h := pElemBase_segs m.elem []
+    [ .opt cs!"Streamable" (m.streamable.map fun b => tb b.text),
+      .many cs!"pVariable" (m.pVariables.map fun x => ntb x.1 x.2),
+      .many cs!"Constant" (m.constants.map fun x => ntb x.1 x.2.text),
+      .many cs!"Expression" (m.expressions.map fun x => ntb x.1 x.2.text),
+      .one cs!"Formula" (tb m.formula.text),
+      .opt cs!"Unit" (m.unit.map tb),
+      .opt cs!"Representation" (m.representation.map fun r => tb r.text) ]
+    (specAttr m.attr st).2 (by rfl)
+  simp (config := { maxDischargeDepth := 3 }) [pIntSwissKnife, IntSwissKnifeM.children, P.bind_def,
+    pAttrBase_render, h, specIntSwissKnife, parseIfD_def, parseIf_optBool, parseWhile_pVariables,
+    parseWhile_constantsInt, parseWhile_expressions, canStart,
+    pFormula_body _ _ m.formula (textView_tb _), parseIf_optString,
+    parseIf_optTable_last _ _ lookup_intRepr, pure_apply]
+
+/-! ### register base -/
+
+theorem tb_fst (s : Str) : (tb s).1 = [] := rfl
+
+theorem pRegPIndex_none (p : Str) (rest : Cur) (st : St F) :
+    pRegPIndex (mkNode cs!"pIndex" (tb p) :: rest) st =
+      .ok (⟨none, (internS p st).1⟩, rest, (internS p st).2) := by
+  simp [pRegPIndex, P.bind_def, P.bind_def', peekElem_node, tb_fst, attrOf, pure_apply,
+    pNodeId_node]
+
+theorem pRegPIndex_offset (l : IntLit) (p : Str) (rest : Cur) (st : St F) :
+    pRegPIndex (mkNode cs!"pIndex" ([(cs!"Offset", l.text)], (tb p).2) :: rest) st =
+      .ok (⟨some (.imm l.val), (internS p st).1⟩, rest, (internS p st).2) := by
+  simp [pRegPIndex, P.bind_def, P.bind_def', peekElem_node, attrOf, pure_apply, l.ok, P.ofR,
+    pNodeId_body (cs!"pIndex") ([(cs!"Offset", l.text)], (tb p).2) p (textView_tb p)]
+
+theorem pRegPIndex_pOffset (n p : Str) (rest : Cur) (st : St F) :
+    pRegPIndex (mkNode cs!"pIndex" ([(cs!"pOffset", n)], (tb p).2) :: rest) st =
+      .ok (⟨some (.pnode (internS n st).1), (internS p (internS n st).2).1⟩, rest,
+        (internS p (internS n st).2).2) := by
+  simp [pRegPIndex, P.bind_def, P.bind_def', peekElem_node, attrOf, pure_apply, intern, internS,
+    pNodeId_body (cs!"pIndex") ([(cs!"pOffset", n)], (tb p).2) p (textView_tb p)]
+
+theorem pAddressKind_item [FloatLit F] (pr : Profile) (x : AddrM) (rest : Cur) (st : St F) :
+    pAddressKind pr (mkNode x.body.1.tag x.body.2 :: rest) st =
+      .ok ((addrS x st).1, rest, (addrS x st).2) := by
+  match x with
+  | .address l =>
+    have := pImmOrPInt_body (F := F) cs!"Address" (tb l.text) (.imm l) (textView_tb _) rest st
+    simp [pAddressKind, AddrM.body, AddrTag.tag, P.bind_def, P.bind_def', peekElem_node, this,
+      addrS, irIntS, pure_apply]
+  | .pAddress n =>
+    have := pImmOrPInt_body (F := F) cs!"pAddress" (tb n.name) (.ref n) (textView_tb _) rest st
+    simp [pAddressKind, AddrM.body, AddrTag.tag, P.bind_def, P.bind_def', peekElem_node, this,
+      addrS, irIntS, pure_apply]
+  | .pIndex none p =>
+    simp [pAddressKind, AddrM.body, AddrTag.tag, P.bind_def, P.bind_def', peekElem_node,
+      pRegPIndex_none, addrS, pure_apply]
+  | .pIndex (some (.inl l)) p =>
+    simp [pAddressKind, AddrM.body, AddrTag.tag, P.bind_def, P.bind_def', peekElem_node,
+      pRegPIndex_offset, addrS, pure_apply]
+  | .pIndex (some (.inr n)) p =>
+    simp [pAddressKind, AddrM.body, AddrTag.tag, P.bind_def, P.bind_def', peekElem_node,
+      pRegPIndex_pOffset, addrS, pure_apply]
+
+/-- the four-way `or_else` chain of the address loop -/
+def addrStep [FloatLit F] (pr : Profile) : P F (Option AddressKind) :=
+  orElse (parseIf cs!"Address" (pAddressKind pr))
+    (orElse (parseIf cs!"IntSwissKnife" (pAddressKind pr))
+      (orElse (parseIf cs!"pAddress" (pAddressKind pr)) (parseIf cs!"pIndex" (pAddressKind pr))))
+
+theorem addrStep_hit [FloatLit F] (pr : Profile) (t : AddrTag) (bd : Body) (rest : Cur) (st : St F) :
+    addrStep pr (mkNode t.tag bd :: rest) st =
+      (pAddressKind pr (mkNode t.tag bd :: rest) st).bind fun x => .ok (some x.1, x.2.1, x.2.2) := by
+  cases t <;>
+    simp [addrStep, AddrTag.tag, orElse, P.bind_def, parseIf_hit, parseIf_miss, pure_apply] <;>
+    cases pAddressKind pr _ st <;> simp [pure_apply]
+
+theorem addrStep_skip [FloatLit F] (pr : Profile) (segs : List Seg) (st : St F)
+    (h1 : canStart cs!"Address" segs = false) (h2 : canStart cs!"IntSwissKnife" segs = false)
+    (h3 : canStart cs!"pAddress" segs = false) (h4 : canStart cs!"pIndex" segs = false) :
+    addrStep pr (flat segs) st = .ok (none, flat segs, st) := by
+  simp [addrStep, orElse, P.bind_def, parseIf_skip _ (pAddressKind pr) segs st h1,
+    parseIf_skip _ (pAddressKind pr) segs st h2, parseIf_skip _ (pAddressKind pr) segs st h3,
+    parseIf_skip _ (pAddressKind pr) segs st h4]
+
+theorem whileSome_manyAddr [FloatLit F] (pr : Profile) (vs : List AddrM) (segs : List Seg) (st : St F)
+    (h1 : canStart cs!"Address" segs = false) (h2 : canStart cs!"IntSwissKnife" segs = false)
+    (h3 : canStart cs!"pAddress" segs = false) (h4 : canStart cs!"pIndex" segs = false) (n : Nat)
+    (hn : (flat (.manyAddr (vs.map AddrM.body) :: segs)).length + 1 ≤ n) :
+    whileSome (addrStep pr) n (flat (.manyAddr (vs.map AddrM.body) :: segs)) st =
+      .ok ((listS addrS vs st).1, flat segs, (listS addrS vs st).2) := by
+  induction vs generalizing st n with
+  | nil =>
+    cases n with
+    | zero => omega
+    | succ n => simp [whileSome, addrStep_skip pr segs st h1 h2 h3 h4, listS]
+  | cons a as ih =>
+    cases n with
+    | zero => omega
+    | succ n =>
+      have hle' : (flat (Seg.manyAddr (List.map AddrM.body as) :: segs)).length + 1 ≤ n := by
+        simp at hn ⊢; omega
+      simp [whileSome, addrStep_hit, pAddressKind_item, ih _ _ hle', listS]
+
+
+theorem length_flat_cons_ge (x : Seg) (r : List Seg) : (flat r).length ≤ (flat (x :: r)).length := by
+  simp [flat]
+
+theorem storeInvalidators_eq (l : List Nat) (t : Nat) (cur : Cur) (st : St F) :
+    storeInvalidators l t cur st = .ok ((), cur, invalS l t st) := by
+  induction l generalizing st with
+  | nil => simp [storeInvalidators, invalS, pure_apply]
+  | cons i r ih =>
+    simp [storeInvalidators, P.bind_def, storeInvalidator, ih, invalS, List.append_assoc]
+
+set_option maxRecDepth 4000 in
+theorem pRegBase_segs [FloatLit F] (pr : Profile) (m : RegM) (rest : List Seg) (st : St F)
+    (h : noneStart regTags rest = true) :
+    pRegBase pr (flat (m.segs ++ rest)) st =
+      .ok ((specReg m st).1, flat rest, (specReg m st).2) := by
+  have hc : ∀ t ∈ regTags, canStart t rest = false := fun t ht => canStart_false_of_noneStart h ht
+  simp only [regTags, elemTags, List.cons_append, List.nil_append, List.forall_mem_cons,
+    List.not_mem_nil, false_imp_iff, implies_true, and_true] at hc
+  obtain ⟨_, _, _, _, _, _, _, _, _, _, _, _, _, _, _, _, hInv, hStr, hA, hK, hPA, hPI, hAM, hCa, hPT⟩ := hc
+  let tail : List Seg :=
+    [ .opt cs!"Streamable" (m.streamable.map fun b => tb b.text),
+      .manyAddr (m.addrs.map AddrM.body),
+      .one2 cs!"Length" cs!"pLength" (irBody IntLit.text m.length),
+      .opt cs!"AccessMode" (m.accessMode.map fun a => tb a.text),
+      .one cs!"pPort" (tb m.pPort),
+      .opt cs!"Cachable" (m.cacheable.map fun c => tb c.text),
+      .opt cs!"PollingTime" (m.pollingTime.map fun l => tb l.text),
+      .many cs!"pInvalidator" (m.pInvalidators.map tb) ]
+  have hsegs : m.segs ++ rest = m.elem.segs [] ++ (tail ++ rest) := by
+    simp [RegM.segs, tail, List.append_assoc]
+  have h0 := pElemBase_segs m.elem [] (tail ++ rest) st (by
+    simp [noneStart, elemTags, canStart, tail])
+  have e1 := fun st n hn => whileSome_manyAddr (F := F) pr m.addrs
+    (.one2 cs!"Length" cs!"pLength" (irBody IntLit.text m.length) ::
+      .opt cs!"AccessMode" (m.accessMode.map fun a => tb a.text) ::
+      .one cs!"pPort" (tb m.pPort) ::
+      .opt cs!"Cachable" (m.cacheable.map fun c => tb c.text) ::
+      .opt cs!"PollingTime" (m.pollingTime.map fun l => tb l.text) ::
+      .many cs!"pInvalidator" (m.pInvalidators.map tb) :: rest) st (by rfl) (by rfl) (by rfl)
+      (by rfl) n hn
+  simp only [addrStep] at e1
+  have e2 := fun st => parseWhile_manyNodeId (F := F) cs!"pInvalidator" m.pInvalidators rest st hInv
+  rw [hsegs]
+  simp only [tail, List.cons_append, List.nil_append] at h0 ⊢
+  simp only [pRegBase, P.bind_def, h0, Res.bind_ok']
+  simp (config := { maxDischargeDepth := 3 }) [parseIfD_def, parseIf_optBool, canStart]
+  rw [e1 _ _ (by
+    have := length_flat_cons_ge (.opt cs!"Streamable" (m.streamable.map fun b => tb b.text))
+      (.manyAddr (m.addrs.map AddrM.body) ::
+        .one2 cs!"Length" cs!"pLength" (irBody IntLit.text m.length) ::
+        .opt cs!"AccessMode" (m.accessMode.map fun a => tb a.text) ::
+        .one cs!"pPort" (tb m.pPort) ::
+        .opt cs!"Cachable" (m.cacheable.map fun c => tb c.text) ::
+        .opt cs!"PollingTime" (m.pollingTime.map fun l => tb l.text) ::
+        .many cs!"pInvalidator" (m.pInvalidators.map tb) :: rest)
+    simp only [flat_append, List.length_append]; omega)]
+  simp (config := { maxDischargeDepth := 3 }) [pImmOrPInt_ir, parseIfD_def,
+    parseIf_optTable _ _ lookup_accessMode, parseIf_optTable _ _ lookup_cachingMode, pNodeId_node,
+    parseIf_optU64, e2, canStart, hAM, hCa, hPT, hInv, specReg, specElem, listS, pure_apply, P.fail]
+
+theorem pIntReg_render [FloatLit F] (pr : Profile) (m : IntRegM) (st : St F) :
+    pIntReg pr m.attr.render m.children st =
+      .ok ((specIntReg m st).1, [], (specIntReg m st).2) := by
+  have h := pRegBase_segs pr m.reg
+    (intRegTail m.sign m.endianness m.unit m.representation m.pSelected) (specAttr m.attr st).2 (by rfl)
+  simp only [intRegTail] at h
+  simp (config := { maxDischargeDepth := 3 }) [pIntReg, IntRegM.children, P.bind_def,
+    pAttrBase_render, h, intRegTail, specIntReg, parseIfD_def, parseIf_optTable _ _ lookup_sign,
+    parseIf_optTable _ _ lookup_endianness, parseIf_optString, parseIf_optTable _ _ lookup_intRepr,
+    parseWhile_manyNodeId_last, canStart, storeInvalidators_eq, pure_apply]
+
+
+theorem pBitMask_segs (b : BitM) (segs : List Seg) (st : St F) :
+    pBitMask (flat (b.segs ++ segs)) st = .ok (b.val, flat segs, st) := by
+  cases b with
+  | bit x =>
+    simp [pBitMask, BitM.segs, P.bind_def, parseIf_hit, pU64_node, BitM.val, pure_apply]
+  | range l m =>
+    simp [pBitMask, BitM.segs, P.bind_def, parseIf_miss, pU64_node, BitM.val, pure_apply]
+
+theorem canStart_bitSegs (b : BitM) (rest : List Seg) (t : Str)
+    (h1 : cs!"Bit" ≠ t) (h2 : cs!"LSB" ≠ t) : canStart t (b.segs ++ rest) = false := by
+  cases b <;> simp [BitM.segs, canStart, h1, h2]
+
+theorem pMaskedIntReg_render [FloatLit F] (pr : Profile) (m : MaskedM) (st : St F) :
+    pMaskedIntReg pr m.attr.render m.children st =
+      .ok ((specMasked m st).1, [], (specMasked m st).2) := by
+  have hch : m.children = flat (m.reg.segs ++ (m.bitMask.segs ++
+      intRegTail m.sign m.endianness m.unit m.representation m.pSelected)) := by
+    simp [MaskedM.children, List.append_assoc]
+  have h := pRegBase_segs pr m.reg (m.bitMask.segs ++
+      intRegTail m.sign m.endianness m.unit m.representation m.pSelected) (specAttr m.attr st).2 (by
+        simp [noneStart, regTags, elemTags, canStart_bitSegs])
+  have e := fun st => pBitMask_segs (F := F) m.bitMask
+    (intRegTail m.sign m.endianness m.unit m.representation m.pSelected) st
+  rw [hch]
+  simp only [intRegTail] at h e
+  simp (config := { maxDischargeDepth := 3 }) [pMaskedIntReg, P.bind_def,
+    pAttrBase_render, h, e, intRegTail, specMasked, parseIfD_def, parseIf_optTable _ _ lookup_sign,
+    parseIf_optTable _ _ lookup_endianness, parseIf_optString, parseIf_optTable _ _ lookup_intRepr,
+    parseWhile_manyNodeId_last, canStart, storeInvalidators_eq, pure_apply]
+
+theorem pPlainReg_render [FloatLit F] (pr : Profile) (m : PlainRegM) (st : St F) :
+    pPlainReg pr m.attr.render m.children st =
+      .ok ((specPlainReg m st).1, [], (specPlainReg m st).2) := by
+  have h := pRegBase_segs pr m.reg [] (specAttr m.attr st).2 (noneStart_nil _)
+  simp only [List.append_nil] at h
+  simp [pPlainReg, PlainRegM.children, P.bind_def, pAttrBase_render, h, specPlainReg,
+    storeInvalidators_eq, pure_apply]
+
+
+/-! ### StructReg -/
+
+theorem hasChild_append (a b : List Elem) (tag : Str) :
+    hasChild (a ++ b) tag = (hasChild a tag || hasChild b tag) := by
+  simp [hasChild, List.any_append]
+
+theorem hasChild_flat_cons (x : Seg) (r : List Seg) (tag : Str) :
+    hasChild (flat (x :: r)) tag = (hasChild x.elems tag || hasChild (flat r) tag) := by
+  simp [flat, hasChild_append]
+
+theorem hasChild_opt_same (tag : Str) (b : Option Body) :
+    hasChild (Seg.opt tag b).elems tag = b.isSome := by
+  cases b <;> simp [Seg.elems, hasChild, mkNode]
+
+theorem hasChild_opt_ne (t tag : Str) (b : Option Body) (h : t ≠ tag) :
+    hasChild (Seg.opt t b).elems tag = false := by
+  cases b <;> simp [Seg.elems, hasChild, mkNode, h]
+
+theorem hasChild_many_ne (t tag : Str) (bs : List Body) (h : t ≠ tag) :
+    hasChild (Seg.many t bs).elems tag = false := by
+  simp [Seg.elems, hasChild, mkNode, h]
+
+theorem hasChild_one_ne (t tag : Str) (b : Body) (h : t ≠ tag) :
+    hasChild (Seg.one t b).elems tag = false := by
+  simp [Seg.elems, hasChild, mkNode, h]
+
+theorem hasChild_nil (tag : Str) : hasChild (flat []) tag = false := rfl
+theorem hasChild_nil' (tag : Str) : hasChild [] tag = false := rfl
+
+theorem hasChild_cons_node (t tag : Str) (b : Body) (r : List Elem) :
+    hasChild (mkNode t b :: r) tag = (t == tag || hasChild r tag) := by
+  simp [hasChild, mkNode]
+
+/-- which defaultable elements a rendered entry contains -/
+theorem declared_entry (e : EntryM) :
+    hasChild (flat e.segs) cs!"Visibility" = e.elem.visibility.isSome ∧
+    hasChild (flat e.segs) cs!"IsDeprecated" = e.elem.isDeprecated.isSome ∧
+    hasChild (flat e.segs) cs!"ImposedAccessMode" = e.elem.imposedAccessMode.isSome ∧
+    hasChild (flat e.segs) cs!"Streamable" = e.streamable.isSome ∧
+    hasChild (flat e.segs) cs!"AccessMode" = e.accessMode.isSome ∧
+    hasChild (flat e.segs) cs!"Cachable" = e.cacheable.isSome := by
+  cases hb : e.bitMask <;>
+    simp [EntryM.segs, ElemM.segs, BitM.segs, hb, hasChild_flat_cons, hasChild_opt_same,
+      hasChild_opt_ne, hasChild_many_ne, hasChild_one_ne, hasChild_nil, hasChild_nil', hasChild_cons_node]
 
 end CamVerif.XmlParse
